@@ -378,6 +378,11 @@ type Outcome struct {
 	Skipped    string         `json:"skipped,omitempty"` // verdict deliberately not taken (unspecified class)
 }
 
+// signalMessages: the texts of the interpreter's internal control-flow
+// signals. An error of any type whose whole message is one of these is a signal
+// that surfaced to the caller, whatever it was wrapped in.
+var signalMessages = map[string]bool{"next": true, "exit": true, "break": true, "continue": true, "return": true}
+
 func classifyErr(err error) (string, string) {
 	if err == nil {
 		return "success", ""
@@ -385,6 +390,9 @@ func classifyErr(err error) (string, string) {
 	var se lang.SyntaxError
 	var re lang.RuntimeError
 	var je lang.JsonError
+	if signalMessages[err.Error()] {
+		return "foreign", fmt.Sprintf("internal control-flow signal %q surfaced as %T", err.Error(), err)
+	}
 	switch {
 	case errors.As(err, &se):
 		return "SyntaxError", se.Message
